@@ -132,8 +132,15 @@ type half struct {
 	total    int // octets delivered so far
 	Written  []byte
 	keep     bool
-	WriteOps []int // length of each accepted Write, in order
-	q        []seg // scheduled, undelivered segments in FIFO order
+	WriteOps []int     // length of each accepted Write, in order
+	q        []seg     // scheduled, undelivered segments in FIFO order
+	Arrivals []Arrival // when keep: (octets delivered so far, instant) per delivery
+}
+
+// Arrival says that by T the first Total octets of a direction had reached the reader's socket buffer.
+type Arrival struct {
+	Total int
+	T     time.Time
 }
 
 type seg struct {
@@ -210,6 +217,19 @@ func (c *StreamConn) Sent() []byte { return c.tx.Written }
 
 //go:norace
 func (c *StreamConn) SentOps() []int { return c.tx.WriteOps }
+
+// ArrivedAt returns the instant at which the first n octets towards c had
+// reached its socket buffer (requires keep on the peer's Pair call).
+//
+//go:norace
+func (c *StreamConn) ArrivedAt(n int) (time.Time, bool) {
+	for _, a := range c.rx.Arrivals {
+		if a.Total >= n {
+			return a.T, true
+		}
+	}
+	return time.Time{}, false
+}
 
 //go:norace
 func (c *StreamConn) IsClosed() bool { return c.closed }
@@ -380,6 +400,9 @@ func (ev *deliverEv) RunEvent(now time.Time) {
 	}
 	h.total += len(d)
 	h.buf = append(h.buf, d...)
+	if h.keep {
+		h.Arrivals = append(h.Arrivals, Arrival{h.total, now})
+	}
 }
 
 // send cuts p into segments and schedules their delivery in FIFO order.
